@@ -3,9 +3,6 @@ package hc
 
 import (
 	"bytes"
-	"encoding/json"
-	"net"
-	"time"
 
 	"github.com/brutella/hc/accessory"
 	"github.com/brutella/hc/characteristic"
@@ -14,49 +11,6 @@ import (
 
 	"hcverif/verif"
 )
-
-type qqAddr string
-
-func (a qqAddr) Network() string { return "tcp" }
-func (a qqAddr) String() string  { return string(a) }
-
-type qqConn struct {
-	addr    qqAddr
-	written [][]byte
-}
-
-func (c *qqConn) Read(b []byte) (int, error) { return 0, nil }
-func (c *qqConn) Write(b []byte) (int, error) {
-	c.written = append(c.written, append([]byte{}, b...))
-	return len(b), nil
-}
-func (c *qqConn) Close() error                       { return nil }
-func (c *qqConn) LocalAddr() net.Addr                { return qqAddr("127.0.0.1:1") }
-func (c *qqConn) RemoteAddr() net.Addr               { return c.addr }
-func (c *qqConn) SetDeadline(t time.Time) error      { return nil }
-func (c *qqConn) SetReadDeadline(t time.Time) error  { return nil }
-func (c *qqConn) SetWriteDeadline(t time.Time) error { return nil }
-
-type qqDevice struct{}
-
-func (qqDevice) Name() string       { return "acc" }
-func (qqDevice) PrivateKey() []byte { return make([]byte, 64) }
-func (qqDevice) PublicKey() []byte  { return make([]byte, 32) }
-func (qqDevice) Pin() string        { return "001-02-003" }
-
-// eventBody extracts the JSON body of one EVENT message.
-func qqEventBody(msg []byte) (proto string, doc map[string]interface{}) {
-	i := bytes.Index(msg, []byte("\r\n\r\n"))
-	if i < 0 {
-		return "", nil
-	}
-	sp := bytes.IndexByte(msg, ' ')
-	if sp > 0 {
-		proto = string(msg[:sp])
-	}
-	json.Unmarshal(msg[i+4:], &doc)
-	return
-}
 
 // Fan-out: N connections with arbitrary subscription bits, in every map iteration order;
 // one of them (or the application) changes the value of a characteristic; one connection
